@@ -494,4 +494,34 @@ theorem parse_allowed (E : Env) (hE : E.AsciiOk) (line : List Char) :
       | none => rfl
       | some x => simp only; rw [interp_addr hr hx]; simp
 
+/-! ### lines of the shape `white* WORD sep …` -/
+
+/-- a line starting (after whitespace) with a spelling of an all-letters word `k`: `parse_command` takes the
+arm of `k`, its second token being the first token of what follows -/
+theorem parse_line_word (E : Env) (hE : E.AsciiOk) (pre w rest k : List Char)
+    (hpre : ∀ c ∈ pre, E.isWhite c = true) (hw : foldAscii? w = some k) (hk : lettersOnly k) (hkne : k ≠ [])
+    (hrest : Sep E rest) :
+    parseCommand E (pre ++ w ++ rest) = chain E k (splitWhitespace E rest).head? := by
+  have hnw := fold_not_white hE hw hk
+  rw [parseCommand_chain, sw_line E pre w rest hpre (fold_ne_nil hw hkne) hnw hrest]
+  simp only [List.head?_cons, List.tail_cons]
+  rw [norm_token E w hnw, toLowercase_fold hE hw]
+
+/-- `white+ token sep`: the token is the first token -/
+theorem sw_second (E : Env) (mid a rest : List Char) (hmid : ∀ c ∈ mid, E.isWhite c = true) (hane : a ≠ [])
+    (ha : ∀ c ∈ a, E.isWhite c = false) (hrest : Sep E rest) :
+    (splitWhitespace E (mid ++ a ++ rest)).head? = some a := by
+  rw [sw_line E mid a rest hmid hane ha hrest]; rfl
+
+theorem sep_of_white (E : Env) (mid s : List Char) (hne : mid ≠ []) (hmid : ∀ c ∈ mid, E.isWhite c = true) :
+    Sep E (mid ++ s) := by
+  cases mid with
+  | nil => exact absurd rfl hne
+  | cons c r => exact Or.inr ⟨c, r ++ s, rfl, hmid c (List.mem_cons_self ..)⟩
+
+theorem letters_words : lettersOnly wBreak ∧ lettersOnly wC ∧ lettersOnly wContinue ∧ lettersOnly wInfo ∧
+    lettersOnly wP ∧ lettersOnly wPrint ∧ lettersOnly wS ∧ lettersOnly wStep ∧ lettersOnly wReg ∧
+    lettersOnly wRegisters := by
+  unfold lettersOnly; decide
+
 end GbVerif.DebugCmd
